@@ -18,10 +18,12 @@ mod c14;
 mod c11;
 mod c13;
 mod c17;
+mod c19;
 
 fn main() {
     let args: Vec<String> = std::env::args().collect();
     if args.len() < 2 { eprintln!("usage: vh <prop> <tier> <seed> [n] | vh replay <prop> <file>"); std::process::exit(2); }
+    if args[1] == "C19files" { c19::files(&args[2]); return; }
     if args[1] == "replay" {
         let text = std::fs::read_to_string(&args[3]).expect("replay file");
         let line = text.lines().find(|l| l.contains("\"prop\"")).expect("record line");
@@ -48,6 +50,7 @@ fn main() {
         "C11" => c11::main(tier, seed, n),
         "C13" => c13::main(tier, seed, n),
         "C17" => c17::main(tier, seed, n),
+        "C19" => c19::main(tier, seed, n),
         p => { eprintln!("unknown property {}", p); std::process::exit(2); }
     }
 }
